@@ -247,6 +247,8 @@ def obligations(tier, seed):
     all_forms = ("repr", "plain-unformatted", "encapsulated-unformatted", "encapsulated-formatted")
     rich = {"flags+descriptions+hedges", "rule-weights", "term/Constant+Linear+Function", "term/Discrete", "names/keywords", "special/negative-zero", "special/infinities+nan", "sizes/beyond-reprlib-defaults", "special/shortcut-constructors"}
     for name, make in entries:
+        if name == "term/Discrete-infinite-ends":
+            continue      # (C14 only: the shim writes concrete infinities inside a symbolic array itself, as bare `inf`; the library's row writer is not executed for them)
         forms = all_forms if (tier != "quick" or name in rich) else ("repr",)
         obs.append((f"python/{name}", ob_engine(name, make, tier, f"python/{name}", forms=forms)))
         used = set()
